@@ -50,11 +50,11 @@ def comparator_functions(prog):
 def pointer_relational_sites(f):
     sites = []
     for n in f.nodes():
-        if n.get("k") == "BinaryOperator" and n.get("op") in REL:
+        if n.get("k") == "BinaryOperator" and (n.get("op") in REL or n.get("op") == "-"):
             a, b = n["ch"]
             ta, tb = strip(a).get("t", ""), strip(b).get("t", "")
             if is_ptr_type(ta) and is_ptr_type(tb):
-                sites.append(n)
+                sites.append(n)         # a < b on addresses, or the qsort idiom `return a - b` on addresses
     return sites
 
 
